@@ -34,7 +34,10 @@ Usable == E.ev = "Point" /\ FLt(E.L, Lit("0.5")) /\ FIsFinite(E.Pout[1]) /\ FIsF
 Strict == C!InvertsForward(O.Pin, E.Pout, Scale(1), Scale(2))
 \* named deviation D7: in the permeate-pressure mode the code inverts with mole fractions
 AsImplementedD7 == O.mode = "press" /\
-                   LET q == C!Invert(E.J, E.pf, E.pp_molar) IN EqR(E.Pout[1], q[1], q[1]) /\ EqR(E.Pout[2], q[2], q[2])
+                   LET q == C!Invert(E.J, E.pf, E.pp_molar)           \* (a negative result is clamped to 0 by the Permeance constructor)
+                       c1 == FMax(q[1], Lit("0.0"))
+                       c2 == FMax(q[2], Lit("0.0"))
+                   IN EqR(E.Pout[1], c1, c1) /\ EqR(E.Pout[2], c2, c2)
 Cl_InvertsForward == Usable => (Strict \/ AsImplementedD7)
 KF_D7_InvertsForward == (Usable /\ O.probe) => Strict
 Cl_UnitsNormalised == /\ (E.ev = "Point" => E.Punits = KG)
